@@ -139,7 +139,9 @@ def fb(ctx):
                             th = True
                         if lab is False and vals != ['System']:
                             th = False
-            ok7 = names == ['System', 'Thiscall'] and self_only and th and over_args
+            # the receiver test is the only thing the default depends on
+            only_any = len(sw) == 1 and is_call(sw[0]['cond'], 'Iterator::any')
+            ok7 = names == ['System', 'Thiscall'] and self_only and th and over_args and only_any and len(cc[2][1][2]) == 1
             det = 'arms %s, predicate matches self arguments only: %s, thiscall on true: %s' % (names, self_only, th)
     ctx.ob(['C16'], 'R-EXPR', 'E7|default-convention', ok7, 'without an attribute the convention is thiscall if any argument is a receiver, else system: %s' % det, where)
     # the attribute value is what ends up in Function.calling_convention (unwrap_or_else on the parsed option)
@@ -446,6 +448,4 @@ def attribute_scans(ctx):
             ok = bool(find_calls(v, 'string_literal')) and (sep == ('int', 10, 'char') or (sep[0] in ('const', 'str') and '\\n' in str(sep[1])))
             L = innermost_loop(f, ps[0]['block'])
             ok = ok and bool(L) and pc[0]['block'] in L[1]
-        keyc = [op.get('str') for bi in f.normal_blocks() for op in f.block_operands(bi) if op.get('k') == 'Const' and 'str' in op]
-        ok = ok and 'doc' in keyc
         ctx.ob(['C17'], 'R-EXPR', 'DOC|joined-in-order', ok, 'Attributes::doc appends the string of every `doc = ".."` attribute in list order, separated by a newline', loc(f.span))
